@@ -526,6 +526,8 @@ struct ImageCheck<'a> {
     follow_up: bool,
     nested: Option<&'a str>, // "c03" | "c04"
     decode: bool,
+    /// also compare hash_table_utilization() of the recovered handle with the decoded image
+    occupancy: bool,
 }
 
 fn side_audit(n: &nomt::Nomt<B3>, sides: &Sides, uni: &[Key], t: u64, what: &str) -> Result<Model, Violation> {
@@ -594,7 +596,16 @@ fn check_image(ic: &ImageCheck, img: &DirImage, sides: &Sides, t: u64, what: &st
             merkle: true,
             leaks: false,
         };
-        imgdec::check_image::<B3>(&rec, &model.kv, &opts).map_err(|m| viol("recovered-image", format!("{what}: recovered image does not decode to the state: {m}")))?;
+        let rep = imgdec::check_image::<B3>(&rec, &model.kv, &opts).map_err(|m| viol("recovered-image", format!("{what}: recovered image does not decode to the state: {m}")))?;
+        if ic.occupancy {
+            let occ = n.hash_table_utilization().occupied;
+            if occ != rep.full_buckets || occ != rep.merkle.reachable_stored {
+                return Err(viol(
+                    "occupancy-after-recovery",
+                    format!("{what}: after recovery hash_table_utilization().occupied = {occ}, full buckets on disk = {}, stored pages reachable from the root = {}", rep.full_buckets, rep.merkle.reachable_stored),
+                ));
+            }
+        }
     }
     if ic.follow_up {
         // one follow-up commit and (if enabled) a rollback, audited against the model continued
@@ -641,7 +652,8 @@ fn check_image(ic: &ImageCheck, img: &DirImage, sides: &Sides, t: u64, what: &st
                     nested_dir: ic.nested_dir.clone(),
                     follow_up: false,
                     nested: None,
-                    decode: false,
+                    decode: ic.decode,
+                    occupancy: ic.occupancy,
                 };
                 // recovery does not change the logical state: both sides stay acceptable, and
                 // "new required" carries over.
@@ -842,6 +854,7 @@ impl CrashX {
                 follow_up: true,
                 nested: if nested { Some(if mode == "c03" { "c03" } else { "c04" }) } else { None },
                 decode: case["decode"].as_bool().unwrap_or(mode == "c03"),
+                occupancy: case["occupancy"].as_bool().unwrap_or(false),
             };
             for cut in &cuts {
                 let img = build_image(&pre, &tr, cut);
